@@ -80,7 +80,12 @@ fn reject_cases(r: &mut Rng, n: usize, sink: &mut Sink) {
         let mut fails = vec![];
         let last = ctx.steps.last();
         let rejected = matches!(last.map(|s| &s.post), Some(Err((c, _))) if *c == 1202);
-        if mode <= 1 && !rejected {
+        // a violation is a step ACCEPTED with the negative sample (as its new or as its previous speed), or a run that
+        // completed; a run that stopped with another error before it ever reached the negative sample was rejected all the
+        // same and took no step with it (an earlier version of this oracle demanded the negative-speed error itself and
+        // raised a false alarm on such a run: seed 9, case ss_reject/24)
+        let used = ctx.finished_ok || ctx.steps.iter().any(|s| s.post.is_ok() && (s.pre.i == at || s.pre.i == at + 1));
+        if mode <= 1 && !rejected && used {
             fails.push(format!("trace with negative speed {} at sample {} was not rejected: the run {} ({} steps taken)", ctx.speeds[at], at,
                 if ctx.finished_ok { "completed" } else { "ended otherwise" }, ctx.steps.len()));
         }
